@@ -15,3 +15,20 @@ theorem psum_prefix (W1 W2 : Nat → Int) (k : Nat)
     have h1 : psum W1 n = psum W2 n := ih (fun j hj => h j (Nat.lt_succ_of_lt hj))
     have h2 : W1 n = W2 n := h n (Nat.lt_succ_self n)
     simp [psum, h1, h2]
+
+/-- with non-negative widths the prefix sums are monotone (used for: every slice lies within the stacked matrix) -/
+theorem psum_mono (W : Nat → Int) (hW : ∀ j : Nat, 0 ≤ W j) (i j : Nat) (h : i ≤ j) : psum W i ≤ psum W j := by
+  induction j with
+  | zero =>
+    have : i = 0 := Nat.le_zero.mp h
+    subst this
+    exact Int.le_refl _
+  | succ n ih =>
+    by_cases hin : i ≤ n
+    · have h1 := ih hin
+      have h2 := hW n
+      simp [psum]
+      omega
+    · have : i = n + 1 := by omega
+      subst this
+      exact Int.le_refl _
